@@ -2,6 +2,7 @@
 from __future__ import annotations
 
 import ast
+import re
 
 from sa.engine.callgraph import calls_in, resolve_call
 from sa.engine.context import Ctx
@@ -461,6 +462,17 @@ def rule_pure(ctx: Ctx) -> RuleReport:
                         if n.func.attr == "seek":
                             continue
                         bad.append((n, f"`{short(n, 60)}` mutates a container that belongs to the result"))
+            # an observer never hands out a stored stream: the consumer's ordinary stream handling (with-block, close(),
+            # write) would change -- or end -- what the result holds
+            stream_fields = {st.target.id for st in c.node.body if isinstance(st, ast.AnnAssign) and isinstance(st.target, ast.Name) and re.search(r"BytesIO|BinaryIO|\bIO\[|StringIO", norm(st.annotation))}
+            if stream_fields:
+                alias = {n.targets[0].id: n.value for n in walk_own(fi.node) if isinstance(n, ast.Assign) and len(n.targets) == 1 and isinstance(n.targets[0], ast.Name)}
+                for r in [n for n in walk_own(fi.node) if isinstance(n, ast.Return) and n.value is not None]:
+                    for v in (r.value.elts if isinstance(r.value, ast.Tuple) else [r.value]):
+                        if isinstance(v, ast.Name) and v.id in alias:
+                            v = alias[v.id]
+                        if isinstance(v, ast.Attribute) and isinstance(v.value, ast.Name) and v.value.id == "self" and v.attr in stream_fields:
+                            bad.append((r, f"`{short(r, 40)}` hands out the stream stored in the result (self.{v.attr}): when the caller closes it (`with img.{name}() as fh:`) or writes to it, every later {name}() / to_json() of the same result fails or differs"))
             if bad:
                 for node, msg in bad:
                     rep.fail(Finding("C06-PURE", DT, fi.qual, short(node, 120), f"observer {fi.qual} is not side-effect free: {msg}; a later observation or to_json() of the same result differs", line=node.lineno))
